@@ -4,7 +4,7 @@
 cd "$(dirname "$0")/.."
 TIER=${1:-quick}; shift
 IDS="$@"
-[ -z "$IDS" ] && IDS=$(python3 -c "import json; print(' '.join(c["property_id"] for c in json.load(open('MANIFEST.json'))['checks']))")
+[ -z "$IDS" ] && IDS=$(jq -r '.checks[].property_id' MANIFEST.json | tr '\n' ' ')
 mkdir -p .work/tiers/$TIER
 for id in $IDS; do
   t0=$(date +%s)
